@@ -447,6 +447,8 @@ type GenCfg struct {
 	Garbage    int  // per mille of variable values that are arbitrary text
 	LeadSaves  bool // the script starts with one to three save statements
 	SmallPool  bool // only three account names: repetition within one source becomes the norm
+	LiteralSaves bool // save statements use literal amounts and accounts only
+	OriginProb int    // n: one new variable in n gets an origin (default 4)
 	Directed   string // "" or the name of a directed template (gen_directed.go)
 	KeptBias   bool // ordered destinations keep amounts close to partial sums of the source balances
 }
@@ -473,6 +475,7 @@ type Gen struct {
 	flag    bool
 	nvar    int
 	amounts []*big.Int // interesting amounts seen so far (balances, caps)
+	shadow   map[string]map[string]*big.Int // rough running balances, to keep later statements affordable
 	partials []*big.Int // partial sums of what the sources of the current send can give
 }
 
@@ -495,6 +498,13 @@ func NewGen(r *Rand, cfg GenCfg) *Gen {
 				g.bal[a][c] = v
 				g.amounts = append(g.amounts, new(big.Int).Abs(v))
 			}
+		}
+	}
+	g.shadow = map[string]map[string]*big.Int{}
+	for a, m := range g.bal {
+		g.shadow[a] = map[string]*big.Int{}
+		for c, v := range m {
+			g.shadow[a][c] = new(big.Int).Set(v)
 		}
 	}
 	if r.Chance(1, 10) {
@@ -631,7 +641,7 @@ func (g *Gen) declare(typ string) string {
 	name := g.freshName()
 	vd := &GVarDecl{Type: typ, Name: name}
 	vi := varInfo{name: name, typ: typ}
-	if g.cfg.Origins && g.r.Chance(1, 4) {
+	if g.cfg.Origins && g.r.Chance(1, max(g.cfg.OriginProb, 1)*boolInt(g.cfg.OriginProb > 0)+4*boolInt(g.cfg.OriginProb == 0)) {
 		switch {
 		case typ == "monetary" && g.r.Chance(2, 3):
 			fn := "balance"
@@ -944,10 +954,7 @@ func (g *Gen) dest(depth int) *GDest {
 // estimateSupply: what the bounded leaves of a source could give at most (caps ignored), and
 // whether some leaf is unbounded. Only used to centre the sent amount on the interesting threshold.
 func (g *Gen) estimateSupply(s *GSource) (*big.Int, bool) {
-	total := new(big.Int)
-	unb := false
-	var acct func(e *GExpr) string
-	acct = func(e *GExpr) string {
+	acct := func(e *GExpr) string {
 		switch e.Kind {
 		case XAccount:
 			return e.S
@@ -956,43 +963,98 @@ func (g *Gen) estimateSupply(s *GSource) (*big.Int, bool) {
 		}
 		return ""
 	}
-	var walk func(s *GSource)
-	walk = func(s *GSource) {
+	capOf := func(e *GExpr) *big.Int {
+		if e != nil && e.Kind == XMonetary && e.B.Kind == XNumber {
+			if e.B.N.Sign() < 0 {
+				return new(big.Int)
+			}
+			return e.B.N
+		}
+		return nil
+	}
+	var walk func(s *GSource) (*big.Int, bool)
+	walk = func(s *GSource) (*big.Int, bool) {
 		switch s.Kind {
 		case SrcAccount, SrcOverdraft:
 			a := acct(s.E)
 			if a == "world" || (s.Kind == SrcOverdraft && s.Bounded == nil) {
-				unb = true
-				return
+				return new(big.Int), true
 			}
 			b := new(big.Int)
-			if v, ok := g.bal[a][g.asset]; ok {
+			if v, ok := g.shadow[a][g.asset]; ok {
 				b.Set(v)
 			}
-			if s.Kind == SrcOverdraft && s.Bounded != nil && s.Bounded.Kind == XMonetary && s.Bounded.B.Kind == XNumber {
-				b.Add(b, s.Bounded.B.N)
+			if s.Kind == SrcOverdraft {
+				if c := capOf(s.Bounded); c != nil {
+					b.Add(b, c)
+				}
 			}
-			if b.Sign() > 0 {
-				total.Add(total, b)
+			if b.Sign() < 0 {
+				b.SetInt64(0)
 			}
+			return b, false
 		case SrcInorder:
+			total := new(big.Int)
+			unb := false
 			for _, x := range s.Subs {
-				walk(x)
+				t, u := walk(x)
+				total.Add(total, t)
+				unb = unb || u
 			}
+			return total, unb
 		case SrcAllot:
+			var min *big.Int
 			for _, it := range s.Items {
-				walk(it.From)
+				t, u := walk(it.From)
+				if u {
+					continue
+				}
+				if min == nil || t.Cmp(min) < 0 {
+					min = t
+				}
 			}
+			if min == nil {
+				return new(big.Int), true
+			}
+			return min, false
 		case SrcCapped:
-			walk(s.From)
+			t, u := walk(s.From)
+			c := capOf(s.Cap)
+			if c == nil {
+				return t, u
+			}
+			if u || c.Cmp(t) < 0 {
+				return new(big.Int).Set(c), false
+			}
+			return t, false
 		}
+		return new(big.Int), false
 	}
-	walk(s)
-	return total, unb
+	return walk(s)
+}
+
+// deduct approximates the effect of a send on the running balances (greedy over the leaves)
+func (g *Gen) deduct(src *GSource, n *big.Int) {
+	left := new(big.Int).Set(n)
+	for _, a := range g.sourceAccounts(src) {
+		if left.Sign() <= 0 {
+			return
+		}
+		v, ok := g.shadow[a][g.asset]
+		if !ok || v.Sign() <= 0 {
+			continue
+		}
+		take := new(big.Int).Set(v)
+		if take.Cmp(left) > 0 {
+			take.Set(left)
+		}
+		v.Sub(v, take)
+		left.Sub(left, take)
+	}
 }
 
 func (g *Gen) sendAmount(supply *big.Int, unbounded bool) *big.Int {
-	switch g.r.Weighted(35, 30, 12, 8, 15) {
+	switch g.r.Weighted(40, 25, 12, 6, 17) {
 	case 0: // within the supply
 		if !unbounded {
 			return g.r.BigBelow(new(big.Int).Add(supply, bi(1)))
@@ -1032,6 +1094,7 @@ func (g *Gen) sendStmt() *GStmt {
 		var e *GExpr
 		if g.r.Chance(8, 10) {
 			n := g.sendAmount(supply, unb)
+			g.deduct(st.Src, n)
 			if !n.IsInt64() || g.r.Chance(1, 8) {
 				// beyond int64 (or just for variety): through a variable
 				name := g.freshName()
@@ -1066,9 +1129,36 @@ func (g *Gen) sendStmt() *GStmt {
 	return st
 }
 
+func boolInt(b bool) int {
+	if b {
+		return 1
+	}
+	return 0
+}
+
 func (g *Gen) saveStmt() *GStmt {
 	g.asset = assetPool[g.r.Weighted(80, 12, 8)]
 	st := &GStmt{Kind: StSave}
+	if g.cfg.LiteralSaves {
+		a := g.account()
+		if a == "world" {
+			a = "a"
+		}
+		st.Acct = &GExpr{Kind: XAccount, S: a}
+		if g.r.Chance(1, 4) {
+			st.Sent = &GSent{All: true, E: &GExpr{Kind: XAsset, S: g.asset}}
+		} else {
+			n := bi(int64(g.r.Intn(30)))
+			if b, ok := g.bal[a][g.asset]; ok && g.r.Chance(1, 2) {
+				n = new(big.Int).Add(new(big.Int).Abs(b), bi(int64(g.r.Intn(7)-3)))
+				if n.Sign() < 0 || !n.IsInt64() {
+					n = bi(int64(g.r.Intn(12)))
+				}
+			}
+			st.Sent = &GSent{E: &GExpr{Kind: XMonetary, A: &GExpr{Kind: XAsset, S: g.asset}, B: &GExpr{Kind: XNumber, N: n}}}
+		}
+		return st
+	}
 	if g.r.Chance(1, 4) {
 		st.Sent = &GSent{All: true, E: g.exprOf("asset", 0)}
 	} else {
